@@ -206,7 +206,7 @@ pub(super) fn stack_inv(
         }
 
         "unroll" => {
-            let args = params.series_as_i64("roll").unwrap();
+            let args = params.series_as_i64("unroll").unwrap();
             stack_roll(stack, operands, &args)
         }
 
